@@ -23,6 +23,26 @@ CHECKS = {
             "bounded exhaustive exploration of histories with a structural audit of every published version",
             "After every step of every explored history the current version is audited: runs ascending and pairwise disjoint by actual contents and by metadata, read-order precedence of sequence numbers between tables sharing a key, metadata (key range, seqno range, item/tombstone/weak-tombstone counts) equal to a full scan, files exist, and the v<id> file decoded by an independent decoder (plus `current`) equals the published structure.",
             "7 C07", HX_NOTE),
+    "C03": ("hx", "model_checking",
+            "bounded exhaustive exploration of histories; per distinct physical layout every bound pair x next/next_back interleaving vs reference map",
+            "Layouts (memtable only, several L0 runs, multi-table runs, multi-block tables, tombstones, several versions per key; keys 61, 61FF, 61FFFF, 62, FF, FFFF) are collected by the history exploration; for each distinct layout (sequence numbers rank-normalised) and each snapshot every pair of bounds from {unbounded, included, excluded} x {keys, gaps, below, above} is scanned under every next/next_back interleaving (canonical patterns for long results in the quick tier), plus every key prefix, first/last/len/is_empty, key()/size() guards and every overlay memtable over two keys.",
+            "7 C03", HX_NOTE),
+    "C08": ("hx", "model_checking",
+            "bounded exhaustive exploration of histories on a BlobTree with a standard-tree twin, the reference map and pointer resolution",
+            "The same history is run on a key-value-separated tree and replayed on a standard tree; get/contains_key/size_of/scans/len/guard sizes must be identical at MAX, the visible seqno and every held snapshot, both must equal the model, and every Indirection entry of every table of every version in the history must resolve through that version's blob files to the bytes written for that (key, seqno). Configurations: thresholds 1/16/1000 x blob file target 1/64MiB x staleness 0/0.25/1 x age cutoff 0.25/1.",
+            "7 C08", HX_NOTE + " Blob compression: none (lz4 is not in the feature set the suite is built with)."),
+    "C09": ("hx", "model_checking",
+            "bounded exhaustive exploration of histories on a BlobTree with recomputation of garbage from a pointer scan",
+            "After every step the pointers of all tables are scanned: per blob file gc_stats (len, bytes, on_disk_bytes) must equal item_count/total bytes minus what is still pointed to, stale_blob_bytes must be their sum, each table's linked_blob_files must equal its own pointers, no pointed-to file may be missing from the version or the disk, a file that was dead before a merge commit (or a drop that removed tables) must be gone after it, and the statistics must be unchanged across reopen.",
+            "7 C09", HX_NOTE),
+    "C10": ("corrupt", "fault_enumeration",
+            "exhaustive single-corruption enumeration (every byte x bit flips / 0x00 / 0xFF / every truncation) with cold reopen in worker processes",
+            "Every byte of every file (`current`, v<N>, tables, blob files) of each persisted subject tree is corrupted once; the mutant is opened with fresh caches in a worker process and every read (get/contains/size_of for present and absent keys at every snapshot and MAX, forward/reverse scans, len, first/last, a sub-range) is compared with the pristine answers. Only a silently different answer is a violation; errors, panics, aborts and timeouts are counted as loud failures.",
+            "6.3, 7 C10", "Trusted base: the worker protocol, the pristine baseline computed by the same workload code. One corruption per mutant."),
+    "C12": ("tablemc", "model_checking",
+            "bounded exhaustive enumeration of item streams x 216 writer settings x recover variants x probes on the real table::Writer / Table",
+            "Every strictly ordered stream of up to 3 entries over a 3x3 key/seqno grid with all four value types and three value-size patterns (quick: up to 2 plus a slice of 3), 4-5 entry two-key streams and an adversarial family are written under every combination of block size, restart interval, hash ratio, index/filter partitioning and partition size, recovered pinned/unpinned with global seqno 0/7 and with/without descriptor table, and read back through metadata, scan, iter (both directions), every bound pair under every next/next_back interleaving and get for every key x seqno.",
+            "7 C12", "Trusted base: the stream itself is the specification; harness; bounded stream length."),
     "C13": ("hx", "model_checking",
             "bounded exhaustive exploration of single-delete-disciplined histories vs model with weak delete read as delete",
             "The generator enforces put/weak-delete alternation per key; the model treats remove_weak as remove; all point reads and scans at MAX, the visible seqno and every held snapshot must agree under every interleaving of rotate/flush/compactions/reopen and both watermarks.",
@@ -31,10 +51,22 @@ CHECKS = {
             "bounded exhaustive exploration of histories with ingestions of every batch over two keys vs reference map",
             "Every batch over {a,b} x {absent,value,tombstone} (empty included) is ingested between writes, snapshots, flushes, compactions and reopen; the model stamps the batch with the ingestion's seqno; snapshots taken before see nothing of it, later ones all of it, later writes win, memtable data stays readable, everything survives reopen.",
             "7 C14", HX_NOTE),
+    "C15": ("hx", "model_checking",
+            "bounded exhaustive exploration of histories with every drop_range bound pair / clear from nine seed layouts vs reference map",
+            "From nine layouts over keys a-d (memtable only, one table, one table per key, two runs, tombstone table over values, table + memtable) every drop_range over {unbounded, included, excluded} x {keys, gaps, below, above} (empty and inverted included) or clear is combined with a snapshot before/after, one more write, (thorough) one maintenance op and reopen: keys outside the range and every earlier snapshot are exact, keys inside may only return values written for them, inverted ranges change nothing, clear empties later snapshots only.",
+            "7 C15", HX_NOTE),
+    "C17": ("hx", "model_checking",
+            "bounded exhaustive exploration of histories x verdict functions with an instrumented compaction filter feeding the reference map",
+            "Every map {a,b} -> {Keep, Remove, RemoveWeak, ReplaceValue small, ReplaceValue big, Destroy} (quick: every 5th) is installed as compaction filter on standard and blob trees; the filter logs every entry it is shown, the model applies the verdict to exactly that entry (unconstrained for RemoveWeak/Destroy on keys written more than once), and all reads/scans at new and held snapshots must follow; a tombstone shown to the filter or an entry that is no live value is an anomaly.",
+            "7 C17", HX_NOTE),
     "C18": ("hx", "model_checking",
             "bounded exhaustive exploration of histories with exact recomputation of the seqno marks from stored items",
             "After every step get_highest_persisted_seqno / get_highest_memtable_seqno / get_highest_seqno are compared with the maximum over a full scan of every table (global seqno included) and every memtable, on standard and blob trees, with ingestion, clear, drop_range and reopen in the alphabet.",
             "7 C18", HX_NOTE),
+    "C19": ("hx", "model_checking",
+            "bounded exhaustive exploration of append-only histories x FIFO (limit, ttl) derived from the current table sizes, with a clock seam",
+            "Append-only puts in key order (small/big values), flushes, clock ticks and Fifo(limit, ttl) with limits 0, MAX and +-1 around every cumulative newest-table size and ttl none/0/5/1000 s on standard and blob trees: no removed table may be newer than a retained one unless it expired, nothing is removed within limit and TTL, retained keys read their values (also after reopen), removed keys are gone.",
+            "7 C19", HX_NOTE + " The wall clock is overridden through the verif_hooks clock seam."),
     "C20": ("hx", "model_checking",
             "bounded exhaustive exploration of histories with a directory-listing oracle",
             "After every step every file named by any entry of the version history must exist; after a version change made with watermark MAX while no snapshot is held, and after every reopen, the directory must contain exactly the files the current version names.",
@@ -42,18 +74,18 @@ CHECKS = {
 }
 
 NOT_YET = {
-    "C03": "check not built yet (hx stage 2: range bounds x next/next_back interleavings) - in progress",
+    "_C03": "check not built yet (hx stage 2: range bounds x next/next_back interleavings) - in progress",
     "C05": "check not built yet (crash engine) - in progress",
     "C06": "check not built yet (sched engine) - in progress",
-    "C08": "check not built yet (hx differential blob vs standard) - in progress",
-    "C09": "check not built yet (hx blob gc accounting oracle) - in progress",
-    "C10": "check not built yet (corrupt engine) - in progress",
+    "_C08": "check not built yet (hx differential blob vs standard) - in progress",
+    "_C09": "check not built yet (hx blob gc accounting oracle) - in progress",
+    "_C10": "check not built yet (corrupt engine) - in progress",
     "C11": "check not built yet (configuration product) - in progress",
-    "C12": "check not built yet (tablemc engine) - in progress",
-    "C15": "check not built yet (hx drop_range/clear alphabet) - in progress",
+    "_C12": "check not built yet (tablemc engine) - in progress",
+    "_C15": "check not built yet (hx drop_range/clear alphabet) - in progress",
     "C16": "check not built yet (fault engine) - in progress",
-    "C17": "check not built yet (hx instrumented compaction filter) - in progress",
-    "C19": "check not built yet (hx FIFO alphabet with clock seam) - in progress",
+    "_C17": "check not built yet (hx instrumented compaction filter) - in progress",
+    "_C19": "check not built yet (hx FIFO alphabet with clock seam) - in progress",
 }
 
 def main():
